@@ -1456,10 +1456,34 @@ class ContactHandler(Messenger, dbus.service.Object):
     @dbus.service.method(DBUS_IFACE, in_signature='', out_signature='')
     def close(self):
         ''' Close the TCP connection immediately. '''
+        self._tx_abandon()
         if tuple(self.locations):
             self.remove_from_connection()
 
         Messenger.close(self)
+
+    def _tx_abandon(self):
+        ''' Report all transfers which have not finished as not sent,
+        nothing more can be done for them on this connection.
+        '''
+        if self._process_queue_pend is not None:
+            glib.source_remove(self._process_queue_pend)
+            self._process_queue_pend = None
+
+        items = list(self._tx_pend_ack)
+        if self._tx_tmp is not None and self._tx_tmp not in items:
+            items.append(self._tx_tmp)
+        self._tx_pend_ack.clear()
+        self._tx_tmp = None
+        self._tx_length = None
+        for item in items:
+            self._tx_map.pop(item.transfer_id, None)
+            self.send_bundle_finished(
+                str(item.transfer_id),
+                item.ack_length or 0,
+                'connection closed'
+            )
+        self._tx_flush_pend_start()
 
     def send_bundle_fileobj(self, file):
         ''' Send bundle from a file-like object.
@@ -1586,6 +1610,9 @@ class ContactHandler(Messenger, dbus.service.Object):
         :rtype: bool
         '''
         self._process_queue_pend = None
+        if self.get_app_socket() is None:
+            # closed in the meantime
+            return False
         self._logger.debug('Processing queue of %d items',
                            len(self._tx_pend_start))
 
